@@ -440,8 +440,6 @@ class C06(verif.Spec):
         one = (not fixed) and a % 257 == 1
         if one and a == 1 and b >= 257:
             return None     # outside the documented precondition (last_du_size < 257): behaviour unspecified
-        if one and a == 1 and b > len(pre):
-            return None     # malformed op: the "last data unit" would begin before the region handed to encode_stuffing
         keep = len(pre) if not (one and a == 1) else len(pre) - b
         if buf[:keep] != pre[:keep]: return "encode_stuffing changed bytes before the last data unit"
         region = buf[keep:]
@@ -552,6 +550,43 @@ class C06(verif.Spec):
                     seen.add(w.split(":")[0]); res.append((w, case))
             self.extra_coverage["demux_roundtrip_cases"] = len(clean)
             self.extra_coverage["demux_frames_compared"] = n_frames
+        # (b2) the joined round trip through C07's harness: the bytes the real multiplexer emitted (callback or
+        #      coroutine, PES mode) through the real demultiplexer whole / in random cuts / byte-wise / via
+        #      vbi_dvb_demux_cor (whole, small pieces, random cuts); every variant must deliver the sent frames
+        pes_clean = [(case, plan) for case, plan in clean if plan["pid"] == 0]
+        if pes_clean:
+            rng = ctx["rng"]
+            lim = 300 if ctx["tier"] == "quick" else 3000
+            if len(pes_clean) > lim: pes_clean = rng.sample(pes_clean, lim)
+            dexe, derr = verif.build_harness("demux_harness", link_lib=True)
+            if dexe is None:
+                res.append(("harness build demux_harness for the joined round trip: " + str(derr)[-300:], pes_clean[0][0]))
+            else:
+                def cut(b):
+                    pts = sorted(set(rng.randrange(1, len(b)) for _ in range(rng.randrange(1, 30)))) if len(b) > 1 else []
+                    return [b[i:j] for i, j in zip([0] + pts, pts + [len(b)])]
+                dcases = []
+                for case, plan in pes_clean:
+                    b = "".join(x[2] for x in sorted(plan["packets"], key=lambda x: x[0]))
+                    bb = [b[i:i + 2] for i in range(0, len(b), 2)]
+                    c = ["new pes", "feed " + b, "new pes"] + ["feed " + "".join(x) for x in cut(bb)]
+                    c += ["new pes", "feedn 1 " + b, "new pes", "feedn %d %s" % (rng.choice([2, 7, 47, 183, 188, rng.randrange(2, 400)]), b)]
+                    c += ["newcor pes", "cor " + b, "newcor pes", "corn %d %s" % (rng.choice([1, 7, 46, 188, rng.randrange(2, 300)]), b)]
+                    c += ["newcor pes"] + ["cor " + "".join(x) for x in cut(bb)]
+                    dcases.append(c)
+                outs, inc = verif.run_side([dexe], dcases, self.timeout_per_case)
+                for x in inc:
+                    res.append(("%s of the real code in mux -> demux partitions/coroutine (%s)" % (x["kind"], verif.summarize_san(x["detail"])), pes_clean[x["case"]][0]))
+                bad = {x["case"] for x in inc}
+                n_var, seen = 0, set()
+                for k, (case, plan) in enumerate(pes_clean):
+                    if k in bad: continue
+                    w, nv = self.judge_demux_variants(plan, dcases[k], outs.get(k, []))
+                    n_var += nv
+                    if w and w.split(":")[0] not in seen:
+                        seen.add(w.split(":")[0]); res.append((w, case))
+                self.extra_coverage["demux_partition_cor_cases"] = len(pes_clean)
+                self.extra_coverage["demux_partition_cor_variants"] = n_var
         # (c) raw lines (oracle only)
         raw_cases = [case for case, _ in plans if any(l.startswith("feedraw ") for l in case)]
         if not any(a == "--replay" for a in sys.argv):
@@ -608,6 +643,37 @@ class C06(verif.Spec):
                 cur[1].append((sid, ln, d))
             any_unit = True
         return groups
+
+    def judge_demux_variants(self, plan, dcase, out):
+        """C07 harness output for one stream pushed through several partitions and the coroutine: every variant
+        must deliver the sent frames (frames without lines do not count)"""
+        pk = sorted(plan["packets"], key=lambda x: x[0])
+        groups = self.expected_groups(pk)
+        if groups is None or any(len(g[1]) > 63 for g in groups): return None, 0
+        want = [(g[0], g[1]) for g in groups if g[1]]      # the group still open at the end is not in `groups`
+        variants, cur = [], None
+        for op, o in zip(dcase, out):
+            w = op.split()[0]
+            if w in ("new", "newcor"):
+                cur = []; variants.append((w, cur)); continue
+            if not o.startswith("ok 1 "):
+                return "joined round trip: demux harness answered '%s' to %s" % (o[:60], w), len(variants)
+            body = o[5:]
+            for f in ([] if body == "-" else body.split(" | ")):
+                t = f.split()
+                ls = []
+                for x in t[2:]:
+                    sid, ln, hexd = x.split(":")
+                    d = list(bytes.fromhex(hexd))
+                    if int(sid) == 0x400: d[1] &= 0x3F
+                    ls.append((int(sid), int(ln), d))
+                if ls: cur.append((int(t[0][4:]), ls))
+        for i, (w, got) in enumerate(variants):
+            if got != want:
+                k = next((j for j, (a, b) in enumerate(zip(got, want)) if a != b), min(len(got), len(want)))
+                return ("joined round trip: %s variant %d delivers other frames than sent (%d vs %d, first difference at frame %d)"
+                        % ("coroutine" if w == "newcor" else "feed partition", i, len(got), len(want), k)), len(variants)
+        return None, len(variants)
 
     def judge_demux(self, plan, out):
         """frames delivered by vbi_dvb_demux_feed must be the sent frames (grouped where a boundary is not recognisable)"""
